@@ -20,7 +20,7 @@ cmake -G Ninja -S $W -B $W.head -DCMAKE_BUILD_TYPE=Release >/dev/null 2>&1 && ni
 demo $W.head $W > $W.head/demo_head.txt 2>&1; DH=$?
 git -C $W apply "$SRC/patch.diff" 2>/dev/null || (cd $W && patch -p1 -s --no-backup-if-mismatch < "$SRC/patch.diff") || { echo "patch does not apply"; exit 2; }
 cmake -G Ninja -S $W -B $W/_b -DCMAKE_BUILD_TYPE=Release >/dev/null 2>&1 && ninja -C $W/_b >/dev/null 2>&1 || { echo "changed build failed"; exit 2; }
-ST=$(/var/tmp/run_stable.sh $W/_b 2>&1 | tail -1)
+ST=$($(dirname "$0")/run_stable.sh $W/_b 2>&1 | tail -1)
 demo $W/_b $W > $W/_b/demo_changed.txt 2>&1; DC=$?
 echo "$ID/$CH: demo(HEAD)=$DH demo(changed)=$DC stable: $ST"
 if [ $DH -eq 0 ] && [ $DC -ne 0 ] && echo "$ST" | grep -q "failing \[\]"; then
